@@ -423,13 +423,18 @@ def instantiate (p : Policy) (cs : Sites) (mkeys : List String) (t : T) (k : Nat
 
 /-- where the reset of the variable sits -/
 inductive Reset where
-  | fin     -- inside `finally`
+  | fin     -- inside `finally`, restoring the value the variable itself had before
   | after   -- after the `yield`, outside `finally`: skipped when the body raises
+  | wrong   -- a reset that writes back a value NOT read from the variable (e.g. a directory recorded elsewhere)
   | none    -- no reset
 deriving DecidableEq, Repr
 
-def Reset.ofString (s : String) : Reset :=
-  if s == "finally" then .fin else if s == "after" then .after else .none
+/-- from the two columns of Gen/Brackets: place of the reset, what is restored -/
+def Reset.ofStrings (place src : String) : Reset :=
+  if place == "none" then .none
+  else if src != "self" then .wrong
+  else if place == "finally" then .fin
+  else if place == "after" then .after else .none
 
 inductive Outcome where
   | ok | raised
@@ -447,6 +452,7 @@ def withBracket (reset : Reset) (var : String) (newVal : Nat) (body : Store → 
   | .fin, o => (o, r.2.set var (s var))
   | .after, .ok => (.ok, r.2.set var (s var))
   | .after, .raised => (.raised, r.2)
+  | .wrong, o => (o, r.2.set var 0)          -- some value that was not read from the variable
   | .none, o => (o, r.2)
 
 /-- library code as far as the bracketed variables are concerned -/
@@ -484,8 +490,8 @@ def Prog.disciplined (watch : List String) : Prog → Bool
   | .bracket reset x _ body => (reset == .fin || !watch.contains x) && body.disciplined watch
 
 /-- rows of Gen/Brackets as (context manager, variable, reset) -/
-def bracketRows (tbl : List (String × String × String × String)) : List (String × String × Reset) :=
-  tbl.map (fun r => (r.2.1, r.2.2.1, Reset.ofString r.2.2.2))
+def bracketRows (tbl : List (String × String × String × String × String)) : List (String × String × Reset) :=
+  tbl.map (fun r => (r.2.1, r.2.2.1, Reset.ofStrings r.2.2.2.1 r.2.2.2.2))
 
 def resetOf (cm var : String) (rows : List (String × String × Reset)) : Option Reset :=
   (rows.find? (fun r => r.1 == cm && r.2.1 == var)).map (·.2.2)
